@@ -11,12 +11,12 @@ from mc import core, e2e, driver, xmaptext, cmaptext, sink
 from mc.props import c17
 
 RULE = ("per base world: 64 ordered query tuples (all orderings of all non-empty subsets of 4 queries), 6 reference orders, 15 -qId "
-        "subsets, 7 -rId subsets, 6 row-level rearrangements of the CMAP files; modes separate/best/all; oracle = for every query "
+        "subsets, 7 -rId subsets, 6 row-level rearrangements of the CMAP files; modes separate/best/all/joined; oracle = for every query "
         "present, its records in every file (without XmapEntryID) equal those of the full run / of the physically restricted run; "
         "non-trivial = variant changes which molecules or which order COMA sees; distinct by (world, variant, mode)")
 ASSUMPTIONS = ["reference-order clause: cases with two candidates of exactly equal confidence or two seeds of exactly equal score are "
                "counted as tie_undecided, not judged", "records compared as field tuples without XmapEntryID"]
-MODES = ('separate', 'best', 'all')
+MODES = ('separate', 'best', 'all', 'joined')
 _BASE = {}
 
 
@@ -203,6 +203,16 @@ def base_worlds(tier, seed):
     ws.append(dict(refs=[refs[1], refs[0], refs[2]],
                    queries=[e2e.worlds.as_map(4, pool[3][1]), e2e.worlds.as_map(9, q3), e2e.worlds.as_map(17, pool[1][1]), e2e.worlds.as_map(30, [100.0, 20000.0])],
                    desc=['plain', 'three-piece molecule', 'plain', 'unalignable']))
+    # a molecule whose two parts are joined (a 4.2 kb insertion) next to one with a larger id whose two parts lie on the same reference
+    # but 200+ kb apart (never joined): the joining step handles them one after the other
+    r0 = refs[0]
+    wa, wb = e2e.worlds.window_query(r0, 6, 14, False)[0][2], e2e.worlds.window_query(r0, 27, 12, False)[0][2]
+    qa = e2e.worlds.apply_edit(wa, ('chimera', wb, round(r0[2][27] - r0[2][19] + 4200.0, 1)))
+    wc, wd = e2e.worlds.window_query(r0, 8, 13, False)[0][2], e2e.worlds.window_query(r0, 44, 12, False)[0][2]
+    qb = e2e.worlds.apply_edit(wc, ('chimera', wd, 5600.0))
+    ws.append(dict(refs=[refs[1], refs[0], refs[2]],
+                   queries=[e2e.worlds.as_map(9, qb), e2e.worlds.as_map(4, qa), e2e.worlds.as_map(17, pool[1][1]), e2e.worlds.as_map(30, [100.0, 20000.0])],
+                   desc=['two parts far apart on one reference', 'two joinable parts', 'plain', 'unalignable']))
     return ws
 
 
